@@ -109,8 +109,53 @@ def clamp_rule(ctx):
         raise AnalysisError(f"{C}: no slip-branch definition of {jz} found")
 
 
+def estimate_dtype(ctx):
+    """r_i = alpha / diag(W^T M^-1 W)_i is positive and finite for SPD M and full-column-rank W whatever number type W is written in.
+    A buffer allocated with W's dtype truncates the real scaling factor alpha in (0, 2) to 0 or 1 for an integer-typed W (a hand-written
+    unit normal [[0], [0], [1]]), so nothing returned for cols > 0 may derive from such a buffer; the empty case may (it holds no entry)."""
+    from ..cfg import CFG
+    from ..dataflow import ReachingDefs
+    from ..model import guards_of
+    rep = ctx.rep
+    fn = ctx.repo.get(PX, "estimate_prox_parameter")
+    C = f"{PX}:estimate_prox_parameter"
+    params = {a.arg for a in fn.args.args}
+    cfg = CFG(fn)
+    rd = ReachingDefs(cfg)
+    rets = [n for n in cfg.nodes if n.kind == "stmt" and isinstance(n.ast, ast.Return) and n.ast.value is not None]
+    if not rets:
+        raise AnalysisError(f"{C}: no return")
+    def typed_allocs(node):
+        out = []
+        for w in ast.walk(node):
+            if isinstance(w, ast.Call) and (dotted(w.func) or "").split(".")[-1] in ("full", "zeros", "ones", "empty", "full_like", "zeros_like", "ones_like", "empty_like"):
+                last = (dotted(w.func) or "").split(".")[-1]
+                if last.endswith("_like") and w.args and isinstance(w.args[0], ast.Name) and w.args[0].id in params and not any(k.arg == "dtype" for k in w.keywords):
+                    out.append((w, w.args[0].id))
+                for k in w.keywords:
+                    if k.arg == "dtype" and isinstance(k.value, ast.Attribute) and k.value.attr == "dtype" and isinstance(k.value.value, ast.Name) and k.value.value.id in params:
+                        out.append((w, k.value.value.id))
+        return out
+    for r in rets:
+        nodes, _ = rd.backward_slice(r)
+        allocs = [(w, p) for n in nodes if n.ast is not None for (w, p) in typed_allocs(n.ast if n.kind == "stmt" else n.ast)]
+        gs = guards_of(r.ast, fn)
+        empty_only = any((t.replace(" ", "") in ("cols>0", "cols!=0", "W.shape[1]>0") and pol is False) or (t.replace(" ", "") in ("cols==0", "W.shape[1]==0") and pol is True) for t, pol in gs)
+        if not allocs:
+            rep.ok("C27.R5", C, f"`{norm_src(r.ast)[:70]}`: no buffer typed by an argument's dtype feeds the estimate")
+        elif empty_only:
+            rep.ok("C27.R5", C, f"`{norm_src(r.ast)[:70]}`: buffer typed by `{allocs[0][1]}` is returned for the empty case only")
+        else:
+            w, p_ = allocs[0]
+            rep.bad("C27.R5", C, w, f"`{norm_src(w)}` takes the dtype of the argument `{p_}` and feeds the estimate returned for cols > 0: for an integer-typed `{p_}` the scaling "
+                    "factor alpha in (0, 2) is truncated to 0 or 1 when it is stored (estimate 0, or 1/G_ii instead of alpha/G_ii): not positive / not the stated estimate",
+                    f"{PX}:{w.lineno}")
+
+
 def run(ctx):
     rep = ctx.rep
+    rep.rule("C27.R5", "the prox-parameter estimate for a non-empty W does not pass through a buffer typed by an argument's dtype", 1)
+    estimate_dtype(ctx)
     rep.rule("C27.R1", "radius is non-negative and the same in all Sphere methods", 5)
     rep.rule("C27.R2", "NegativeOrthant sign and complementary masks", 3)
     rep.rule("C27.R3", "Sphere.prox branches, active set and residual agree", 6)
@@ -277,4 +322,15 @@ NEUTRAL = [
          old="            Jz = (self.r if radius > 0 else 0.0) * direction.reshape((nx, nr))", new="            Jz = self.r * (self.r * z > 0) * direction.reshape((nx, nr))"),
     dict(id="c27-n1", canary=True, what="np.maximum instead of max", file=PX,
          old="    def prox(self, x, z):\n        radius = max(0, self.r * z)", new="    def prox(self, x, z):\n        radius = max(0.0, self.r * z)"),
+]
+MUTANTS += [
+    dict(id="c27-r5-seed", canary=True, what="[seeded by sub-agent] estimate_prox_parameter: default np.full(cols, alpha, dtype=W.dtype) created up front and divided by the diagonal", file=PX,
+         old="    cols = W.shape[1]\n    if cols > 0:\n        W = csc_array(W)\n        M_inv_W = spsolve(csc_array(M), W)\n        WT_M_inv_W = csc_array((W.T @ M_inv_W).reshape((cols, cols)))\n        return alpha / WT_M_inv_W.diagonal()\n    else:\n        return np.full(cols, alpha, dtype=W.dtype)\n",
+         new="    cols = W.shape[1]\n    prox_r = np.full(cols, alpha, dtype=W.dtype)\n    if cols > 0:\n        W = csc_array(W)\n        M_inv_W = spsolve(csc_array(M), W)\n        WT_M_inv_W = csc_array((W.T @ M_inv_W).reshape((cols, cols)))\n        prox_r = prox_r / WT_M_inv_W.diagonal()\n    return prox_r\n",
+         expect="C27.R5"),
+]
+NEUTRAL += [
+    dict(id="c27-n-r5", canary=True, what="estimate_prox_parameter: single exit with a float default", file=PX,
+         old="    cols = W.shape[1]\n    if cols > 0:\n        W = csc_array(W)\n        M_inv_W = spsolve(csc_array(M), W)\n        WT_M_inv_W = csc_array((W.T @ M_inv_W).reshape((cols, cols)))\n        return alpha / WT_M_inv_W.diagonal()\n    else:\n        return np.full(cols, alpha, dtype=W.dtype)\n",
+         new="    cols = W.shape[1]\n    prox_r = np.full(cols, alpha, dtype=float)\n    if cols > 0:\n        W = csc_array(W)\n        M_inv_W = spsolve(csc_array(M), W)\n        WT_M_inv_W = csc_array((W.T @ M_inv_W).reshape((cols, cols)))\n        prox_r = prox_r / WT_M_inv_W.diagonal()\n    return prox_r\n"),
 ]
